@@ -51,10 +51,11 @@ NATIVE = dict(
     rumqttc=dict(modules=[('src/state.rs', 'state_v4.rs', 'verif_native'),
                           ('src/mqttbytes/topic.rs', 'topic_spec.rs', 'verif_native'),
                           ('src/v5/mqttbytes/mod.rs', 'topic_spec.rs', 'verif_native')]),
-    rumqttd=dict(modules=[('src/protocol/mod.rs', 'topic_spec.rs', 'verif_native')]),
+    rumqttd=dict(modules=[('src/protocol/mod.rs', 'topic_spec.rs', 'verif_native'),
+                          ('src/router/routing.rs', 'router_model.rs', 'verif_native')]),
 )
-DIGEST_COPIES = {'topic-copies-agree': 3}
-NATIVE_ENV = dict(quick=dict(VERIF_NMAX=3, VERIF_DEPTH=9, VERIF_TOPIC_LEN=4, VERIF_FILTER_LEN=4), thorough=dict(VERIF_NMAX=4, VERIF_DEPTH=12, VERIF_TOPIC_LEN=5, VERIF_FILTER_LEN=4))
+DIGEST_COPIES = {'topic-copies-agree': (3, ['C12'])}
+NATIVE_ENV = dict(quick=dict(VERIF_NMAX=3, VERIF_DEPTH=9, VERIF_TOPIC_LEN=4, VERIF_FILTER_LEN=4, VERIF_EVENT_DEPTH=3, VERIF_REQ_DEPTH=3), thorough=dict(VERIF_NMAX=4, VERIF_DEPTH=12, VERIF_TOPIC_LEN=5, VERIF_FILTER_LEN=4, VERIF_EVENT_DEPTH=4, VERIF_REQ_DEPTH=4))
 
 _CLIENT_STATE_TRUSTED = [
     'Kani 0.68 / CBMC 6.11 (bit-precise; machine arithmetic exact, overflow checks on)',
@@ -64,6 +65,13 @@ _CLIENT_STATE_TRUSTED = [
 ]
 
 PROPS = dict(
+    C03=dict(
+        verus=['tracker'], kani=[], native=['rumqttd'],
+        scope='Router::events / handle_device_payload / handle_disconnection / consume driven natively on the real Router over every short history of router-level actions (bounded stand-in); matches() on arbitrary Unicode (C12 unit); Tracker::try_ready debug_assert guards (Verus)',
+        residual='histories longer than the bound; link threads and tokio tasks (broker.rs, remote.rs) are not part of the harness',
+        trusted_base=['rustc as compiled; harness plays the link exactly as link/local.rs does'],
+        assumptions=['BOUNDED stand-in: Kani cannot compile any harness in which Router::new is reachable (compiler ICE, measured) and the handler bodies are outside the Verus subset, so the routing core is explored natively over a stated finite space'],
+    ),
     C06=dict(
         verus=['acklog', 'tracker'], kani=[],
         scope='rumqttd AckLog::{new,connack,suback,puback,pubrec,pubrel,pubcomp,pingresp,unsuback}: each appends exactly the given ack at the back of the reply queue (FIFO), pubrec holds the QoS 2 publish, pubcomp releases the oldest held publish exactly once; Tracker::try_ready wake-up table',
